@@ -5,7 +5,10 @@ import glob
 import hashlib
 import json
 import os
+import queue
 import subprocess
+import threading
+import time
 
 from vt import core
 from vt.harness import c16_common as cm
@@ -58,11 +61,128 @@ def corpus(prop):
     return res
 
 
-def enum_histories(exe, mode, depth, maxjobs, maxstates, limit):
-    p = subprocess.run([exe, "enum", mode, str(depth), str(maxjobs), str(maxstates)], capture_output=True, text=True, timeout=1500)
-    lines = [ln for ln in p.stdout.splitlines() if ln]
-    info = p.stderr.strip().splitlines()
-    return [cm.split_history(ln) for ln in lines[:limit]], len(lines), (info[-1] if info else "")
+# Exhaustive part.  tier -> property -> list of (alphabet, depth, budget): `driver.exe enum <alphabet> <depth> 4 <maxstates> budget <budget>`
+# explores the model's state graph breadth first modulo symmetry (ocaml/c16/driver.ml, `canon`) and prints one concrete history per
+# (canonical state, op) pair; budget = maximal number of pairs printed (0 = all): depths whose pairs do not fit are stride-sampled by the
+# driver, which reports enumerated and printed pairs per depth.  Every printed history is replayed on the real code (C18: with a restart
+# inserted at every position).  The budgets are what 16 harness processes replay in about 20 minutes (about 1000 histories/s each).
+ENUM_PLAN = {
+    "quick": {"C16": [("small", 4, 0)], "C17": [("full", 3, 0), ("small", 4, 0)], "C18": [("full", 3, 0)]},
+    "thorough": {"C16": [("small", 8, 16000000)],
+                 "C17": [("full", 6, 9000000), ("small", 7, 6000000)],
+                 "C18": [("full", 5, 700000)]},
+}
+ENUM_MAXSTATES = 50000000
+
+
+class Enum:
+    """One run of the model-side enumerator; .lines() streams the history texts, .finish() returns the parsed final JSON line."""
+
+    def __init__(self, exe, mode, depth, maxjobs=4, maxstates=ENUM_MAXSTATES, budget=0, shard=None):
+        args = [exe, "enum", mode, str(depth), str(maxjobs), str(maxstates)]
+        if budget:
+            args += ["budget", str(budget)]
+        if shard:
+            args += ["shard", str(shard[0]), str(shard[1])]
+        self.t0 = time.time()
+        self.p = subprocess.Popen(args, stdout=subprocess.PIPE, stderr=subprocess.PIPE, text=True, bufsize=1 << 20)
+        self.err = []
+        self.th = threading.Thread(target=lambda: self.err.extend(self.p.stderr.readlines()), daemon=True)
+        self.th.start()
+
+    def lines(self):
+        for ln in self.p.stdout:
+            ln = ln.strip()
+            if ln:
+                yield ln
+
+    def finish(self):
+        rc = self.p.wait()
+        self.th.join()
+        last = [ln for ln in self.err if ln.startswith("{")]
+        if rc != 0 or not last:
+            raise RuntimeError("enumerator failed rc=%s: %s" % (rc, "".join(self.err)[-1500:]))
+        info = json.loads(last[-1])
+        info["bfs_seconds"] = round(time.time() - self.t0, 1)
+        return info
+
+    def kill(self):
+        self.p.kill()
+
+
+def enum_histories(exe, mode, depth, maxjobs=4, maxstates=ENUM_MAXSTATES, budget=0):
+    """small volumes: all histories at once -> (list of op lists, info)"""
+    e = Enum(exe, mode, depth, maxjobs, maxstates, budget)
+    hs = [cm.split_history(ln) for ln in e.lines()]
+    return hs, e.finish()
+
+
+def replay_stream(prop, exe, src, histories, shards, absorb, batch=20000):
+    """Replay an iterator of histories on `shards` concurrent harness processes in batches; absorb(batch, results) is called
+    (serialised) for every finished batch.  Memory stays bounded by shards * batch histories."""
+    q = queue.Queue(maxsize=shards)
+    lock = threading.Lock()
+    errors = []
+
+    def worker():
+        while True:
+            item = q.get()
+            if item is None:
+                return
+            if errors:
+                continue
+            try:
+                res = run_batch(prop, exe, src, item)
+                with lock:
+                    absorb(item, res)
+            except BaseException as e:   # noqa: B036
+                errors.append(e)
+
+    threads = [threading.Thread(target=worker, daemon=True) for _ in range(shards)]
+    for t in threads:
+        t.start()
+    buf = []
+    n = 0
+    for h in histories:
+        buf.append(h)
+        n += 1
+        if len(buf) >= batch:
+            q.put(buf)
+            buf = []
+            if errors:
+                break
+    if buf and not errors:
+        q.put(buf)
+    for _ in threads:
+        q.put(None)
+    for t in threads:
+        t.join()
+    if errors:
+        raise errors[0]
+    return n
+
+
+def enum_summary(info, expanded):
+    st, tr, pr = info["states_per_depth"], info["transitions_per_depth"], info["printed_per_depth"]
+    complete = 0
+    for d, (t, p) in enumerate(zip(tr, pr), 1):
+        if t == p and not info["truncated"]:
+            complete = d
+        else:
+            break
+    detail = {"alphabet": info["mode"], "depth": info["depth"], "maxjobs": info["maxjobs"],
+              "canonical_states_new_per_depth": [x if x >= 0 else None for x in st], "canonical_states_total": info["states_total"],
+              "pairs_enumerated_per_depth": tr, "pairs_replayed_per_depth": pr, "stride_per_depth": info["stride_per_depth"],
+              "all_pairs_replayed_to_depth": complete, "histories_replayed": expanded, "truncated": info["truncated"],
+              "model_side_seconds": info["bfs_seconds"]}
+    text = ("'%s' alphabet: every (canonical model state, op) pair to depth %d enumerated on the model = %d pairs over %d canonical states "
+            "(per depth %s); replayed on the real code: all pairs to depth %d%s = %d pairs%s%s" % (
+                info["mode"], info["depth"], sum(tr), info["states_total"], tr, complete,
+                "".join(", every %dth pair of depth %d (%d of %d)" % (info["stride_per_depth"][d - 1], d, pr[d - 1], tr[d - 1])
+                        for d in range(complete + 1, info["depth"] + 1)),
+                sum(pr), (" as %d histories (restart inserted at every position)" % expanded) if expanded != sum(pr) else "",
+                "; TRUNCATED by the state limit" if info["truncated"] else ""))
+    return detail, text
 
 
 def with_restarts(rng, h, every):
@@ -79,9 +199,12 @@ def check(run, prop):
                 "Drop(ids) = rpc_qdrop%s}: "
                 "corpus, then random histories of length 3..12 over 2-3 channels, 3-4 worker connections, "
                 "auto and client ids; 8%% of them from the drop family (1-3 clients wait on one job that is dropped; the id is killed "
-                "and re-added, finished, timed out or swept by the watchdog while they wait; noise ops in between); thorough adds a breadth-first exploration of the model's state graph over the property's "
-                "bounded alphabet (2 channels, <=4 jobs, 3 workers, symmetry-reduced: workers/ids/channels in first-use order; "
-                "Choice only when >=2 pullers are blocked), one history per (distinct model state, op) pair. distinct = distinct "
+                "and re-added, finished, timed out or swept by the watchdog while they wait; noise ops in between); plus a breadth-first exploration of the model's state graph over the property's "
+                "bounded alphabet (2 channels, <=4 jobs, 3 worker connections + client connections that kill/finish/wait; 'small' = C16's ops, "
+                "'full' adds timeouts, failing finishes, Wait by two clients, Stats, Drop, pulls on both channels), states identified modulo "
+                "permutation of connections / of the two channels / of client names and time shift (ocaml/c16/driver.ml `canon`; self test "
+                "`driver.exe enumcheck`), Choice only when >=2 pullers are blocked, one concrete history per (canonical model state, op) pair; "
+                "depths and numbers replayed: coverage.exhaustive_part. distinct = distinct "
                 "history text; non-trivial = the run contains a delivery and a RunLoop, a died connection or a restart"
                 % (", Watchdog = dropdead, R = pickle round trip of the db" if prop == "C18" else ""))
     run.trusted = ["Coq 8.16.1 kernel (coqc); vm_compute in the Examples only",
@@ -109,40 +232,79 @@ def check(run, prop):
     nrand = 40000 if quick else 200000
     if prop == "C18":
         nrand = 20000 if quick else 40000
-    enum_info = None
-    if not quick:
-        mode, depth = ("small", 5) if prop == "C16" else ("full", 4)
-        eh, total, info = enum_histories(exe, mode, depth, 4, 400000, 1200000)
-        enum_info = {"alphabet": mode, "depth": depth, "transitions": total, "replayed": len(eh), "last_progress_line": info}
-        if prop == "C18":
-            eh = eh[:: max(1, len(eh) // 30000)]
-            eh = [v for h in eh for v in with_restarts(rng, h, True)]
-        hs += eh
+    shards = 6 if quick else 16
+    kinds = {}
+    lens = {}
+    disagreements = []
+    viols = {}
+    nviol = {}
+    tot = {"n": 0, "diff": 0}
+
+    def keep_smallest(lst, cap=2000):
+        if len(lst) > 2 * cap:
+            lst.sort(key=lambda x: (len(x[0]), x[0]))
+            del lst[cap:]
+
+    def absorb(batch, results, sample=False):
+        for h, r in zip(batch, results):
+            k = r["kinds"]
+            for a, b in k.items():
+                kinds[a] = kinds.get(a, 0) + b
+            lens[len(h)] = lens.get(len(h), 0) + 1
+            tot["n"] += 1
+            nontrivial = k.get("out:deliver", 0) > 0 and (k.get("L", 0) > 0 or k.get("out:died", 0) > 0 or k.get("R", 0) > 0)
+            run.count(";".join(h), nontrivial=nontrivial)
+            if nontrivial and sample:
+                run.sample(";".join(h))
+            if r["diff"]:
+                tot["diff"] += 1
+                disagreements.append((h, r["diff"]))
+                keep_smallest(disagreements)
+            for v in r["viol"]:
+                if v["mon"] in cm.MONITORS[prop]:
+                    nviol[v["mon"]] = nviol.get(v["mon"], 0) + 1
+                    viols.setdefault(v["mon"], []).append((h, v))
+                    keep_smallest(viols[v["mon"]])
+
+    # exhaustive part, small volumes (quick tier): replayed together with the corpus and the random histories
+    plan = ENUM_PLAN[run.tier][prop]
+    enum_details = []
+    enum_texts = []
+
+    def variants(h):
+        return with_restarts(rng, h, True) if prop == "C18" else [h]
+
+    if quick:
+        for mode, depth, budget in plan:
+            eh, info = enum_histories(exe, mode, depth, budget=budget)
+            eh = [v for h in eh for v in variants(h)]
+            d, t = enum_summary(info, len(eh))
+            enum_details.append(d)
+            enum_texts.append(t)
+            hs += eh
     for _ in range(nrand):
         h = cm.gen_history(rng, maxlen=12, prop=prop)
         if prop == "C18":
             hs += with_restarts(rng, h, every=not quick and rng.random() < 0.3)
         else:
             hs.append(h)
-    res = run_sharded(prop, exe, src, hs, 6 if quick else 16)
-    kinds = {}
-    lens = {}
-    disagreements = []
-    viols = {}
-    for h, r in zip(hs, res):
-        k = r["kinds"]
-        for a, b in k.items():
-            kinds[a] = kinds.get(a, 0) + b
-        lens[len(h)] = lens.get(len(h), 0) + 1
-        nontrivial = k.get("out:deliver", 0) > 0 and (k.get("L", 0) > 0 or k.get("out:died", 0) > 0 or k.get("R", 0) > 0)
-        run.count(";".join(h), nontrivial=nontrivial)
-        if nontrivial:
-            run.sample(";".join(h))
-        if r["diff"]:
-            disagreements.append((h, r["diff"]))
-        for v in r["viol"]:
-            if v["mon"] in cm.MONITORS[prop]:
-                viols.setdefault(v["mon"], []).append((h, v))
+    absorb(hs, run_sharded(prop, exe, src, hs, shards), sample=True)
+    nfixed = len(hs)
+    del hs
+    if not quick:
+        # exhaustive part, thorough tier: the enumerator streams into `shards` harness processes
+        for mode, depth, budget in plan:
+            e = Enum(exe, mode, depth, budget=budget)
+            try:
+                n = replay_stream(prop, exe, src, (v for ln in e.lines() for v in variants(cm.split_history(ln))), shards, absorb)
+            except BaseException:
+                e.kill()
+                raise
+            d, t = enum_summary(e.finish(), n)
+            enum_details.append(d)
+            enum_texts.append(t)
+    nhist = tot["n"]
+    disagreements.sort(key=lambda x: (len(x[0]), x[0]))
     shown = []
     for h, d in disagreements[:3]:
         field = d.split(":")[1][:40] if ":" in d else d[:40]
@@ -150,25 +312,32 @@ def check(run, prop):
         d2 = run_batch(prop, exe, src, [m])[0]["diff"]
         shown.append("%s :: %s" % (";".join(m), d2))
     shown += ["%s :: %s" % (";".join(h), d) for h, d in disagreements[3:20]]
-    run.tie("queue model vs real workq+QPlugin under gevent: return values and canonical snapshot after every op", len(hs), shown)
+    if tot["diff"] > len(shown):
+        shown.append("(%d histories with a disagreement in all)" % tot["diff"])
+    run.tie("queue model vs real workq+QPlugin under gevent: return values and canonical snapshot after every op", nhist, shown)
     for mon, lst in sorted(viols.items()):
-        lst.sort(key=lambda x: len(x[0]))
+        lst.sort(key=lambda x: (len(x[0]), x[0]))
         h, v = lst[0]
         m = shrink(prop, exe, src, h, lambda r, mon=mon: any(x["mon"] == mon for x in r["viol"]))
         r = run_batch(prop, exe, src, [m])[0]
         msg = [x["msg"] for x in r["viol"] if x["mon"] == mon][0]
         hist = ";".join(m)
-        run.hit(fingerprint="%s:%s:%s" % (prop, mon, hist), what="%s (history: %s; %d of %d histories)" % (msg, hist, len(lst), len(hs)),
+        run.hit(fingerprint="%s:%s:%s" % (prop, mon, hist), what="%s (history: %s; %d of %d histories)" % (msg, hist, nviol[mon], nhist),
                 replay={"history": hist, "mon": mon, "msg": msg})
         if os.environ.get("VERIF_SAVE_CORPUS") == "1":
             fn = os.path.join(core.VERIF, "corpus", prop, "auto-%s.json" % hashlib.sha256(hist.encode()).hexdigest()[:10])
             json.dump({"history": hist, "note": "%s: %s" % (mon, msg)}, open(fn, "w"), indent=1)
     run.coverage["exhaustive"] = False
-    run.coverage["input_distribution"] = {"corpus": ncorpus, "histories": len(hs), "length_histogram": {str(k): v for k, v in sorted(lens.items())},
+    run.coverage["input_distribution"] = {"corpus": ncorpus, "random_histories": nrand, "histories": nhist,
+                                          "histories_corpus_random%s" % ("_enumerated" if quick else ""): nfixed,
+                                          "length_histogram": {str(k): v for k, v in sorted(lens.items())},
                                           "op_and_outcome_kinds": dict(sorted(kinds.items()))}
-    if enum_info:
-        run.coverage["exhaustive_part"] = ("every (reachable model state, op) pair to depth %(depth)d over the bounded '%(alphabet)s' alphabet: "
-                                           "%(transitions)d transitions, %(replayed)d replayed on the real code; %(last_progress_line)s" % enum_info)
+    if enum_texts:
+        run.coverage["exhaustive_part"] = ("breadth-first exploration of the model's state graph modulo symmetry (connection ids, the two channels, "
+                                           "client names, time shift; unreachable finished job objects dropped); one concrete history per "
+                                           "(canonical state, op) pair, replayed on the real code against the model and the monitors. "
+                                           + " | ".join(enum_texts))
+        run.coverage["exhaustive_detail"] = enum_details
 
 
 def replay(obj, prop):
